@@ -169,7 +169,7 @@ _world_counter = 0
 class World:
     """Files on tmpfs.  `search_paths` is a list of {relative path: content-or-None(dir)-or-bytes}."""
 
-    def __init__(self, search_paths: list[dict], tag: str = "w"):
+    def __init__(self, search_paths: list[dict], tag: str = "w", names: list[str] | None = None):
         global _world_counter
         _world_counter += 1
         self.root = os.path.join(SHM, f"simgriffe-{os.getpid()}", f"{tag}{_world_counter}")
@@ -177,7 +177,7 @@ class World:
             shutil.rmtree(self.root)
         self.sp_dirs = []
         for i, files in enumerate(search_paths):
-            sp = os.path.join(self.root, f"sp{i}")
+            sp = os.path.join(self.root, names[i] if names and i < len(names) else f"sp{i}")
             os.makedirs(sp)
             self.sp_dirs.append(sp)
             for rel, content in files.items():
@@ -192,7 +192,7 @@ class World:
                 else:
                     if "<SP" in content or "<ROOT>" in content:
                         for j in range(len(search_paths)):
-                            content = content.replace(f"<SP{j}>", os.path.join(self.root, f"sp{j}"))
+                            content = content.replace(f"<SP{j}>", os.path.join(self.root, names[j] if names and j < len(names) else f"sp{j}"))
                         content = content.replace("<ROOT>", self.root)
                     with open(full, "w", encoding="utf8") as fh:
                         fh.write(content)
